@@ -134,7 +134,18 @@ _BANKS = [0]
 
 
 def build_filter(al, filt, route, listarg=False):
-    secs = [build_section(al, s, route) for s in filt["secs"]]
+    # equal sections of one bank are ONE filter object used in several branches (a bank may hold the same member
+    # more than once; it still multiplies / adds across all of them)
+    made, secs = [], []
+    for sdesc in filt["secs"]:
+        for d0, obj in made:
+            if d0 == sdesc:
+                secs.append(obj)
+                break
+        else:
+            obj = build_section(al, sdesc, route)
+            made.append((sdesc, obj))
+            secs.append(obj)
     if filt["comb"] == "single":
         return secs[0]
     cls = al.CascadeFilter if filt["comb"] == "cascade" else al.ParallelFilter
@@ -547,6 +558,8 @@ def m3_fr(ctx, al, rng, recs, meta):
         nsec = rng.choice([1, 2, 2, 3, 3, 4])
         filt = {"comb": rng.choice(["cascade", "parallel"]), "secs": [rnd_section(rng, 8 if nsec <= 2 else 3)
                                                                       for _ in range(nsec)]}
+        if nsec >= 2 and rng.random() < 0.3:
+            filt["secs"][-1] = dict(filt["secs"][0])          # the same member twice
     cont = rng.choice(["scalar", "list", "list", "tuple", "deque", "Stream", "generator", "map", "set", "frozenset"])
     if cont == "scalar":
         ms = [rng.randint(0, 3)]
